@@ -122,6 +122,9 @@ class C10:
         r = rng.random()
         H, W = cfg["height"], cfg["width"]
         if r < 0.22:
+            if rng.random() < 0.02:
+                # print(..., end=""): the line stays open (known finding C10-F17 while a display is live)
+                return ["print", self._gen_print(rng, st, cfg), "noeol"]
             return ["print", self._gen_print(rng, st, cfg)]
         if r < 0.27:
             st["n"] += 1
@@ -557,8 +560,19 @@ class Program:
             o.tokens.append(op[1]["lines"][0].split(" ")[0])
             if self.started:
                 self.probes["print_while_live"] += 1
+            # end="" is only issued while the display is live (with no display the next print
+            # would continue the open line, which the row model of printed lines does not express)
+            noeol = len(op) > 2 and op[2] == "noeol" and self.started and bool(con._render_hooks)
+            if noeol:
+                self.probes["defect_print_without_newline_while_live"] = self.probes.get("defect_print_without_newline_while_live", 0) + 1
+                o.tags.add("print-without-newline-while-live")
             o.begin_op(["print", op[1]["lines"][0]], [("print", rows)])
-            con.print(r)
+            if noeol:
+                if hasattr(r, "end"):
+                    r.end = ""  # (a Text carries its own line end; print(end=) applies to strings)
+                con.print(r, end="")
+            else:
+                con.print(r)
             o.end_op()
         elif k == "log":
             rows = self._print_rows(lambda c: c.log(op[1]))
@@ -722,7 +736,7 @@ class Program:
         # whatever went wrong, printed lines are never taken back: every row that had been printed
         # (and verified on screen) before the fault is still there, in order ("no printed line
         # overwritten" is not conditional on the absence of exceptions)
-        if fired and not o.relaxed and o.viol is None and "progress-frame-exceeds-screen" not in o.tags:
+        if fired and not o.relaxed and o.viol is None and "progress-frame-exceeds-screen" not in o.tags and "print-without-newline-while-live" not in o.tags:
             have = [r for r in o.scr.all_cells() if r]
             pos = 0
             for row in o.committed:
@@ -789,7 +803,7 @@ C10.components_stub = ["threading primitives -> dsim", "OS scheduler -> seeded b
 C10.assumptions = ["the terminal behaves like the VT-subset model (LF implies CR, deferred wrap, cursor-up clamps at the window top)",
                    "blank rows are ignored when screens are compared (Progress pads frames to the tallest height seen)",
                    "expected rows come from pristine renders by rich itself: layout is trusted, cursor control / ordering is not",
-                   "known findings: C10-F3 (transient and last frame >= screen height), C10-F4 (Progress and a frame or its padded height > screen height), C10-F6 (failing write in a critical span that overlaps the refresh thread AND one side is a print/log); each suppresses only violations for which its predicate holds",
+                   "known findings: C10-F17 (a print without trailing newline was issued while the display was live, earlier in the history), C10-F3 (transient and last frame >= screen height), C10-F4 (Progress and a frame or its padded height > screen height), C10-F6 (failing write in a critical span that overlaps the refresh thread AND one side is a print/log); each suppresses only violations for which its predicate holds",
                    "Status: the spinner glyph is time dependent and compared as a wildcard cell",
                    "resize, Jupyter, legacy Windows and dumb terminals are not simulated"]
 CHECK = C10()
